@@ -164,3 +164,41 @@ Theorem entity_not_removable_while_owning_runtimes :
     step addr fixed maxexp debond s (TDeregEntity e) = (CEntityHasRuntimes, s).
 Proof. exact entity_not_removable_while_owning_runtimes. Qed.
 Print Assumptions entity_not_removable_while_owning_runtimes.
+
+(* ---- re-registrations: entity constancy, nodes-by-entity and stake claims over histories ---- *)
+
+(* Along every history of transactions and epoch transitions (either SetNode
+   order), as long as the record of a node id exists after every operation --
+   in particular while the node is expired but still held during the debonding
+   interval -- its entity id never changes. *)
+Theorem node_entity_never_changes :
+  forall (addr : N -> N) (fixed : bool) (maxexp debond : N) (ops : list op) s id n n',
+    forallb tx_op ops = true -> IDS (s_nodes s) ->
+    aget id (s_nodes s) = Some n -> exists_throughout addr fixed maxexp debond id ops s ->
+    aget id (s_nodes (run addr fixed maxexp debond ops s)) = Some n' ->
+    n_ent n' = n_ent n.
+Proof. exact entity_const_hist. Qed.
+Print Assumptions node_entity_never_changes.
+
+(* After every history from the initial state, HasEntityNodes(e) holds exactly
+   when some registered node has entity e (no stale nodes-by-entity entry). *)
+Theorem nodes_by_entity_mirrors_records_along_histories :
+  forall (addr : N -> N) (fixed : bool) (maxexp debond : N) (ops : list op) e,
+    forallb tx_op ops = true ->
+    (has_entity_nodes (run addr fixed maxexp debond ops st0) e = true <->
+     exists id n, aget id (s_nodes (run addr fixed maxexp debond ops st0)) = Some n /\ n_ent n = e).
+Proof. exact byent_mirror_hist. Qed.
+Print Assumptions nodes_by_entity_mirrors_records_along_histories.
+
+(* After every history from the initial state, account e holds claim c exactly
+   when c is the entity claim and e is a registered entity, or c is the node
+   claim of a registered node whose entity is e. *)
+Theorem claims_mirror :
+  forall (addr : N -> N) (fixed : bool) (maxexp debond : N) (ops : list op) e c,
+    forallb tx_op ops = true ->
+    (pmem (e, c) (s_claims (run addr fixed maxexp debond ops st0)) = true <->
+     (c = 0 /\ exists ent, aget e (s_ents (run addr fixed maxexp debond ops st0)) = Some ent) \/
+     (exists id n, c = id + 1 /\
+                   aget id (s_nodes (run addr fixed maxexp debond ops st0)) = Some n /\ n_ent n = e)).
+Proof. exact claims_mirror_hist. Qed.
+Print Assumptions claims_mirror.
